@@ -9,6 +9,7 @@ operations the Python code uses (`ti_dead[uids] = ti`, `(ti_dead <= ti).uids`, `
 Core Lean only.
 -/
 import StarsimModel.Model.Arr
+import StarsimModel.Generated.PeoplePlan
 
 namespace StarsimModel.People
 open StarsimModel.Arr
@@ -132,7 +133,7 @@ inductive Op where
   | updateResults
   | removeDead
   | finishStep
-  deriving Repr
+  deriving Repr, DecidableEq
 
 def stepE (p : People) : Op → Except Err People
   | .grow k s => growPeople p k s
@@ -202,6 +203,72 @@ def NoStaleStamp (p : People) : Bool :=
   p.auids.all (fun u => !(cmpVal .le (p.tiDead.cell u) (tiVal p.ti)).truthy || (cmpVal .eq (p.tiDead.cell u) (tiVal p.ti)).truthy)
 
 def AllActiveAlive (p : People) : Bool := p.auids.all (fun u => (p.alive.cell u).truthy)
+
+/-! ### The per-step plan of the simulation loop (`Loop.collect_funcs`, regenerated as `Gen.planRows`)
+
+The population is only consistent if EVERY sim — whatever its module set — runs, once per step and in this order: the
+module code that may create agents and request deaths, `people.step_die`, `people.update_results`, the module code that
+runs after death resolution, `people.finish_step` and at once the clock tick of `sim.finish_step`. -/
+
+/-- a row of the plan: (container, method, guard); guard `""` = scheduled in every sim -/
+abbrev PlanRow := String × String × String
+
+/-- what a row of the plan is for the population -/
+inductive Slot where
+  | people (op : Op)                       -- `sim.people.step_die / update_results / finish_step`
+  | peopleOther (method : String)          -- another People method: not understood by the model
+  | simStart                               -- `sim.start_step`
+  | tick                                   -- `sim.finish_step` (fused into `Op.finishStep`, which it must follow at once)
+  | simOther (method : String)
+  | modules (container method : String)    -- code of the modules: may grow the population and request deaths
+  deriving Repr, DecidableEq
+
+def slotOf (r : PlanRow) : Slot :=
+  if r.1 = "sim.people" then
+    if r.2.1 = "step_die" then .people .stepDie
+    else if r.2.1 = "update_results" then .people .updateResults
+    else if r.2.1 = "finish_step" then .people .finishStep
+    else .peopleOther r.2.1
+  else if r.1 = "sim" then
+    if r.2.1 = "start_step" then .simStart else if r.2.1 = "finish_step" then .tick else .simOther r.2.1
+  else .modules r.1 r.2.1
+
+/-- the rows scheduled in a sim whose module set makes the guards evaluate as `g` says -/
+def scheduled (g : String → Bool) (rows : List PlanRow) : List PlanRow :=
+  rows.filter (fun r => r.2.2 = "" || g r.2.2)
+
+/-- the operations on the population one pass through the plan issues, when the module code at row
+    (container, method) issues `acts container method` -/
+def planOps (acts : String → String → List Op) (rows : List PlanRow) : List Op :=
+  rows.flatMap (fun r => match slotOf r with
+    | .people op => [op]
+    | .modules c m => acts c m
+    | _ => [])
+
+/-- module code changes the population only by creating agents and requesting deaths -/
+def IsModuleOp : Op → Bool
+  | .grow _ _ => true
+  | .requestDeath _ => true
+  | _ => false
+
+/-- one step of the loop: what the modules do before death resolution, death resolution, results, what the modules do
+    after it, removal + clock tick -/
+def stepOps (pre post : List Op) : List Op := pre ++ [.stepDie, .updateResults] ++ post ++ [.finishStep]
+
+/-- the rows of the plan before `people.step_die`, between `people.update_results` and `people.finish_step`, and the rest -/
+def isRow (c m : String) (r : PlanRow) : Bool := r.1 == c && r.2.1 == m
+def preRows (rows : List PlanRow) : List PlanRow := rows.takeWhile (fun r => !isRow "sim.people" "step_die" r)
+def postRows (rows : List PlanRow) : List PlanRow :=
+  ((rows.dropWhile (fun r => !isRow "sim.people" "update_results" r)).drop 1).takeWhile (fun r => !isRow "sim.people" "finish_step" r)
+
+/-- agents created by a list of module operations -/
+def created : List Op → Nat
+  | [] => 0
+  | .grow k _ :: rest => k + created rest
+  | _ :: rest => created rest
+
+/-- agent `u` carries a death stamp that the next death resolution acts on (`ti_dead[u] <= ti`) -/
+def Stamped (p : People) (u : Nat) : Bool := (cmpVal .le (p.tiDead.cell u) (tiVal p.ti)).truthy
 
 
 end StarsimModel.People
